@@ -6,6 +6,8 @@ import transcript
 PROPERTY = "C18"
 THEOREM_FILE = "Props/C18.v"
 INTERFACES = "L5 sessions: statement kinds in 70000-iteration loops, pools driven past 65536 entries; release-profile harness for the long runs"
+XCHECK_TAGS = {"leak-2500"}
+XCHECK_MAX = 2
 WATCHDOG_MS = 30000      # 65000-deep recursions under full machine load
 PROFILES = ["dev"]
 CASE_TIMEOUT = 20.0
@@ -25,6 +27,8 @@ BODIES = [
     "B=INSTR(\"hello\",\"l\")+LEN(T$)", "X%=X%+1:IF X%>100 THEN X%=0", "D#=Q/3", 'IF Q<0 THEN PRINT "never"', "B=ABS(-Q)+SGN(Q)+INT(Q/2)", "TRON:TROFF",
     "GOSUB 900:GOSUB 900", "IF Q>5 THEN GOSUB 900 ELSE GOSUB 900", "IF Q>5 THEN ON 3 GOSUB 900 ELSE ON 1 GOSUB 900", "A=VAL(\"12\")+ASC(\"A\")",
     "ON Q-3*INT(Q/3) GOSUB 900,900", "FOR J=1 TO 2:FOR K=1 TO 2:NEXT K,J", "FOR J=1 TO 2:GOSUB 900:NEXT", "B$=STRING$(3,\"x\")+SPC(2)", "POKE=1", "READ D:RESTORE 910",
+    # subroutines left through RETURN with loops still open: the frames above the return address go with it
+    "GOSUB 920", "GOSUB 920:GOSUB 940", "ON 1 GOSUB 940", "IF Q>0 THEN GOSUB 920 ELSE GOSUB 940",
 ]
 
 
@@ -37,12 +41,16 @@ def loop_program(body, n, in_sub):
         core = ["20 FOR Q=1 TO %d" % n, "25 GOSUB 800", "30 NEXT Q", "40 PRINT \"fin\":END", "800 %s" % body, "810 RETURN"]
     else:
         core = ["20 FOR Q=1 TO %d" % n, "25 %s" % body, "30 NEXT Q", "40 PRINT \"fin\":END"]
-    return head + core + ["900 RETURN", "910 DATA 1,2,3"]
+    if body.startswith("GOTO-LOOP "):
+        # the same body driven by a counter and GOTO instead of FOR: a stray value on the stack is then noticed only as a leak
+        core = ["20 Q=Q+1:IF Q>%d THEN 40" % n, "25 %s" % body[len("GOTO-LOOP "):], "30 GOTO 20", "40 PRINT \"fin\":END"]
+    return head + core + ["900 RETURN", "910 DATA 1,2,3", "920 FOR J=1 TO 5:IF J=2 THEN RETURN", "930 NEXT J:RETURN",
+                          "940 C=0:WHILE C<3:C=C+1:FOR K=1 TO 2:IF C=2 THEN RETURN", "950 NEXT K:WEND:RETURN"]
 
 
 def gen(tier, rng):
     cases = []
-    bodies = list(BODIES)
+    bodies = list(BODIES) + ["GOTO-LOOP GOSUB 920", "GOTO-LOOP GOSUB 940", "GOTO-LOOP GOSUB 900", "GOTO-LOOP FOR J=1 TO 3:NEXT"]
     if tier == "thorough":
         for _ in range(120):
             bodies.append(rng.choice(BODIES) + ":" + rng.choice(BODIES))
@@ -55,7 +63,8 @@ def gen(tier, rng):
                 prog = loop_program(body, n, in_sub)
                 if prog is None or ("30" in body and in_sub):
                     continue
-                calls = ["R5000"] + [sess.E(l) for l in prog] + [sess.E("RUN"), "R50000", sess.E("PRINT 7"), "R5000"]
+                # a second and third run-until call continue a run that used up the first call's budget; they return at once otherwise
+                calls = ["R5000"] + [sess.E(l) for l in prog] + [sess.E("RUN"), "R50000", "R50000", "R50000", sess.E("PRINT 7"), "R5000"]
                 cases.append(Case(sess.session(calls), sig="%d x [%s]%s" % (n, body, " in a subroutine" if in_sub else ""), tag="leak-%d" % n,
                                   side=side, meta=("leak", body)))
     # pools past their limit
